@@ -487,18 +487,31 @@ oracle = DESIGN.md Appendix B (transcribed from the rustdoc on the wire fields)"
 
     // ---- alarm_messages(): non-zero codes, message order ----------------------------------------------------
     let n = ctx.tier.pick(150_000, 5_000_000);
+    let mut previous_codes = base.alarm_codes;
     for i in 0..n {
         if i % 16 == 1 {
             crate::props::poison::run(i as u64);
         }
         let mut m = base.clone();
-        for a in m.alarm_codes.iter_mut() {
-            *a = match rng.below(6) {
-                0 | 1 => 0,
-                2 => rng.range(801, 65_535) as u16,
-                3 => *rng.pick(&[1u16, 2, 3, 13, 14, 800, 799, 703]),
-                _ => rng.range(1, 800) as u16,
-            };
+        if i % 3 == 2 {
+            // the previous message's codes in another slot order (rotated, reversed, shuffled): the
+            // list follows *this* message's slots, whatever was asked before
+            m.alarm_codes = previous_codes;
+            match rng.below(3) {
+                0 => m.alarm_codes.rotate_left(1 + rng.usize_below(13)),
+                1 => m.alarm_codes.reverse(),
+                _ => rng.shuffle(&mut m.alarm_codes),
+            }
+            ctx.obs.count("alarm_lists_with_the_previous_codes_in_another_order", 1);
+        } else {
+            for a in m.alarm_codes.iter_mut() {
+                *a = match rng.below(6) {
+                    0 | 1 => 0,
+                    2 => rng.range(801, 65_535) as u16,
+                    3 => *rng.pick(&[1u16, 2, 3, 13, 14, 800, 799, 703]),
+                    _ => rng.range(1, 800) as u16,
+                };
+            }
         }
         if i % 7 == 0 {
             let c = m.alarm_codes[0];
@@ -512,6 +525,7 @@ oracle = DESIGN.md Appendix B (transcribed from the rustdoc on the wire fields)"
             m.alarm_codes[k + 1] = *rng.pick(&[c, 0, 900]);
             m.alarm_codes[k + 2] = c;
         }
+        previous_codes = m.alarm_codes;
         ctx.obs.case(mix(124, i));
         let want: Vec<u16> = m.alarm_codes.iter().copied().filter(|c| *c != 0 && *c <= 800).collect();
         match mon::catch(|| m.alarm_messages().iter().map(|d| d.code()).collect::<Vec<u16>>()) {
